@@ -23,7 +23,218 @@ def build_cases(rng, tier):
     return cases
 
 
+# ------------------------------------------------------------------ a source that reports end of input and later has more
+PIECES_TOP = r"""
+static int my_input(char *buf, int max);
+#undef YY_INPUT
+#define YY_INPUT(buf,result,max_size) { result = my_input(buf, (int) (max_size)); }
+"""
+
+PIECES_MAIN = r"""
+static unsigned char g_data[32][4096];
+static int g_len[32], g_np, g_cur, g_off, g_step, g_wraps;
+static int my_input(char *buf, int max)
+{
+    int n;
+    if (g_cur >= g_np) return 0;
+    if (g_off == g_len[g_cur]) { g_cur++; g_off = 0; return 0; }      /* end of this piece: report end of input once */
+    n = g_len[g_cur] - g_off;
+    if (n > max) n = max;
+    if (n > g_step) n = g_step;
+    memcpy(buf, g_data[g_cur] + g_off, (size_t) n);
+    g_off += n;
+    return n;
+}
+int yywrap(%(WRAPARG)s)
+{
+    printf("W\n");
+    return ++g_wraps >= g_np;
+}
+int main(int argc, char **argv)
+{
+    int i;
+    %(DECL)s
+    g_step = atoi(argv[1]);
+    for (i = 2; i < argc && g_np < 32; i++) {
+        FILE *f = fopen(argv[i], "rb");
+        if (!f) return 2;
+        g_len[g_np] = (int) fread(g_data[g_np], 1, sizeof g_data[0], f);
+        fclose(f);
+        g_np++;
+    }
+    %(INIT)s
+    printf("R %%d\n", %(LEX)s);
+    %(FINI)s
+    return 0;
+}
+"""
+
+
+def pieces_cases(rng, tier):
+    import rulesets
+    n = 40 if tier == "quick" else 600
+    cases = []
+    for i in range(n):
+        r = rng.fork("pc%d" % i)
+        prog = rulesets.gen_program(r, trailing=(i % 3 == 0), max_scs=0, csize=256)
+        if r.chance(60):
+            prog['rules'].append({'head': ('plus', ('cls', ('set', False, [('rg', 97, 122)]))), 'bol': False, 'scs': None, 'trail': None})
+        np_ = r.pick([1, 2, 2, 3, 4])
+        pieces = rulesets.gen_inputs(prog, r.fork("in"), count=np_, maxlen=r.pick([6, 20, 60]))
+        pieces = [list(w) for w in pieces]
+        for w in pieces:
+            if r.chance(50):
+                w.extend([r.pick([97, 98, 99])] * r.rng(1, 3))       # ends inside a token that needs look-ahead
+        if r.chance(15) and np_ > 1:
+            pieces[r.below(np_)] = []
+        cases.append({'id': "p%d" % i, 'kind': 'pieces', 'prog': prog, 'backend': r.pick(['nr', 'nr', 'r']),
+                      'flex_opts': list(r.pick([[], [], ["-Cf"], ["-CF"], ["-Ce"], ["-B"], ["-I"], ["-Cm"]])) + ["-8"],
+                      'pieces': pieces, 'step': r.pick([1, 2, 3, 7, 100000]), 'seed': r.s, 'text': '', 'focus': ['pieces'],
+                      'extra_options': [], 'sources': []})
+    return cases
+
+
+def pieces_worker(case):
+    import os
+    import scanner
+    import backends
+    import tokcase
+    from common import run, Rng
+    wd = os.path.join(engine._ROOT, "c%s" % case['id'])
+    os.makedirs(wd, exist_ok=True)
+    res = {'problems': [], 'lockstep': [], 'streams': [], 'id': case['id'], 'pieces_validated': 0}
+    be, prog = case['backend'], case['prog']
+    try:
+        sub = {'nr': dict(WRAPARG="void", DECL="", INIT="", LEX="yylex()", FINI=""),
+               'r': dict(WRAPARG="yyscan_t yyscanner", DECL="yyscan_t s;", INIT="if (yylex_init(&s)) return 3;", LEX="yylex(s)",
+                         FINI="yylex_destroy(s);")}[be]
+        epi = backends.EMIT + PIECES_MAIN % sub
+        text = scanner.make_spec(prog, Rng(case['seed']).fork("print"), options=(["case-insensitive"] if prog.get('caseins') else []),
+                                 extra_top=PIECES_TOP, epilogue=epi, backend=be)
+        text = text.replace("%option noyywrap ", "%option ")
+        res['text'] = text
+        with open(os.path.join(wd, "s.l"), "w") as f:
+            f.write(text)
+        rc, out, err = scanner.run_flex(engine._FLEX, "s.l", "s.c", case['flex_opts'], wd)
+        res['dangerous'] = b"dangerous trailing context" in err
+        if rc != 0:
+            exp = tokcase.expected_refusal(prog, case['flex_opts'], be, wd)
+            if not (exp and any(m in err.decode(errors='replace') for m in exp)):
+                res['problems'].append(('flex-error', err.decode(errors='replace')[:300]))
+            return res
+        rc, out, err = scanner.compile_c("s.c", "s.exe", wd, backend=be)
+        if rc != 0:
+            res['problems'].append(('compile-error', err.decode(errors='replace')[:400]))
+            return res
+        args = []
+        for i, w in enumerate(case['pieces']):
+            ip = os.path.join(wd, "p%d.bin" % i)
+            with open(ip, "wb") as f:
+                f.write(bytes(w))
+            args.append(ip)
+        rc, out, err = run([os.path.join(wd, "s.exe"), str(case['step'])] + args, timeout=20)
+        desc = "pieces=%s step=%d" % ([bytes(w).hex() for w in case['pieces']], case['step'])
+        if rc != 0:
+            res['problems'].append(('scanner-abnormal', "rc=%s %s stderr=%s" % (rc, desc, err[:200])))
+            return res
+        segs, cur, ret = [], [], None
+        for line in out.decode(errors='replace').splitlines():
+            if line == "W":
+                segs.append(cur)
+                cur = []
+            elif line.startswith("R "):
+                ret = line
+            else:
+                cur.append(line)
+        if cur:
+            res['problems'].append(('events-after-last-yywrap', "%s: tokens %s after the last yywrap call" % (desc, cur[:5])))
+        if ret != "R 0":
+            res['problems'].append(('wrong-return', "%s: yylex returned %s" % (desc, ret)))
+        if len(segs) != len(case['pieces']):
+            res['problems'].append(('yywrap-count', "%s: the source reported end of input %d times, yywrap was consulted %d times" % (
+                desc, len(case['pieces']), len(segs))))
+        if res['dangerous']:
+            return res
+        queries, order = [], []
+        for w, seg in zip(case['pieces'], segs):
+            toks = scanner.parse_tokens(("\n".join(seg) + ("\n" if seg else "")).encode())
+            if not all(isinstance(t[0], int) for t in toks):
+                res['problems'].append(('scanner-output-garbled', str(toks[:3])))
+                continue
+            wsx = "(" + " ".join(str(b) for b in w) + ")"
+            tsx = "(" + " ".join("(%d %d)" % (t[0], t[1]) for t in toks) + ")"
+            queries.append("(validate_o %s 1 1 %s %s)" % (scanner.owners_sx(prog), wsx, tsx))
+            order.append((w, toks))
+        if queries:
+            case_sx = "(case %s\n(queries (%s)))\n" % (scanner.sx_program(prog), "\n".join(queries))
+            rc, out, err = scanner.run_driver(case_sx, wd, timeout=120)
+            if rc != 0:
+                res['problems'].append(('driver-error', "rc=%s %s" % (rc, err[:300])))
+                return res
+            for (w, toks), line in zip(order, [l for l in out.splitlines() if l.startswith("validate")]):
+                res['pieces_validated'] += 1
+                if line.strip() != "validate OK":
+                    res['problems'].append(('piece-tokens', "%s: the tokens between two yywrap calls are not the documented tokenisation of the "
+                                            "piece %s (scanned at beginning of line in the unchanged start condition): %s" % (
+                                                desc, bytes(w).hex(), [(t[0], t[1]) for t in toks][:20])))
+    except Exception as ex:
+        import traceback
+        res['problems'].append(('harness-error', repr(ex) + traceback.format_exc()[-300:]))
+    return res
+
+
+def worker(case):
+    if case.get('kind') == 'pieces':
+        return pieces_worker(case)
+    return engine.stream_worker(case)
+
+
+def judge(ck, flex, scratch, cases, results, stats):
+    sc = [(c, r) for c, r in zip(cases, results) if c.get('kind') != 'pieces']
+    engine.judge_stream(ck, flex, scratch, [c for c, _ in sc], [r for _, r in sc], stats)
+    stats['pieces_validated'] = sum(r.get('pieces_validated', 0) for r in results)
+    for c, r in zip(cases, results):
+        if c.get('kind') != 'pieces':
+            continue
+        c['text'] = r.get('text', '')
+        for kind, msg in r['problems']:
+            stats.setdefault('problem_kinds', {})
+            stats['problem_kinds'][kind] = stats['problem_kinds'].get(kind, 0) + 1
+        if not r['problems']:
+            continue
+        kind, msg = r['problems'][0]
+        ck.violation("%s:%s" % (kind, engine.prog_key(c)), msg[:600],
+                     {'spec': c['text'], 'flex_opts': c['flex_opts'], 'backend': c['backend'],
+                      'pieces_hex': [bytes(w).hex() for w in c['pieces']], 'step': c['step'],
+                      'detail': [list(p) for p in r['problems'][:4]],
+                      'how': "flex <opts> -o s.c s.l; cc; ./s <bytes per read> piece1 piece2 ...: the input routine hands out each piece and then "
+                             "reports end of input once; yywrap prints W and returns 0 while pieces remain"},
+                     no_input=kind in ('harness-error', 'driver-error'))
+
+
+def build_all(rng, tier):
+    return build_cases(rng, tier) + pieces_cases(rng.fork("pieces"), tier)
+
+
 def main(tier):
+    orig = engine.judge
+    engine.judge = judge
+    try:
+        return engine.standard_main(
+            PROP, tier, "Properties_C10.v", build_all,
+            "programs with <<EOF>> rules on random subsets of the start conditions, 1-4 sources chained by yywrap (some empty), inputs ending "
+            "inside tokens that need look-ahead, yyinput at the end of a source; events (tokens, E <condition>, returns) compared with the "
+            "stream machine; sources that report end of input and have more afterwards (user YY_INPUT handing out pieces, 1..n bytes per "
+            "read): yywrap must be consulted once per report, after all tokens of the piece (judged by the proved validator) and before "
+            "any of the next; non-trivial = DFA >= 3 states and >= 2 rules matched",
+            ["sequences of yylex / yyrestart / new yyin after termination are exercised in C11's buffer histories",
+             "yywrap may be consulted more than once for one end of input (DESIGN 5a.5); sources are supplied at most once each"],
+            worker=worker, post=lambda ck, flex, scratch, cases, results, stats: {k: stats.get(k, 0) for k in ['pieces_validated']})
+    finally:
+        engine.judge = orig
+
+
+def _old_main(tier):
     return engine.stream_main(
         PROP, tier, "Properties_C10.v", build_cases,
         "programs with <<EOF>> rules on random subsets of the start conditions, 1-4 sources chained by yywrap (some empty), inputs ending "
